@@ -182,6 +182,11 @@ var (
 		"    Hobby3 []string `valid:\"ints\"`\n" + // 遍历切片中的元素是否为整数
 		"}")
 
+	datetimeErr = errors.New(defaultTargetTag + " \"datetime\" is not ok, eg: " +
+		"type Test struct {\n" +
+		"    Time string `valid:\"datetime='/, ,:'\"`\n" + // 最多 3 个分隔符
+		"}")
+
 	uniqueErr = errors.New(defaultTargetTag + " \"unique\" is not ok, eg: " +
 		"type Test struct {\n" +
 		"    Hobby1 string `valid:\"unique\"`\n" + // 按 "," 进行分割对字符串进行判断是否唯一
